@@ -248,8 +248,15 @@ RegCalls(rt, cd, n) ==
 
 (* ====================================================================== *)
 (* admin: C12 - migrate / update admin / clear admin *)
+(* a fourth code without sudo / reply / migrate entry points (code 3, flavour 4) and one instance of it, D *)
+D == "c3_3"
+GenesisAdm == Genesis0 \o
+    << [call |-> [k |-> "store_code", creator |-> "u1", flavour |-> 4], sc |-> <<>>],
+       [call |-> ExecuteCall("u1", << Inst(3, "LD", "u1", <<>>, "") >>), sc |-> <<B0>>] >>
 AdmMenu(info, fuel, cu) ==
-    IF info.entry = "execute" /\ fuel > 1
+    IF info.c = D /\ info.entry = "execute" /\ fuel > 1
+    THEN {W(info)} \cup {Beh(FALSE, WriteTok(info), <<>>, <<>>, NoData, <<Sub(Send("u2", n), 1, "", on)>>) : n \in {1, 9}, on \in Ons}
+    ELSE IF info.entry = "execute" /\ fuel > 1
     THEN {Beh(FALSE, <<>>, <<>>, <<>>, NoData, <<Sub(m, 1, "", on)>>) :
              m \in {Migrate(A, 2), UpdateAdmin(A, B), Migrate(B, 1), UpdateAdmin(B, "u1"), ClearAdmin(A), Migrate(info.c, 2)},
              on \in {"never", "error"}} \cup {B0}
@@ -264,6 +271,9 @@ AdmCalls(rt, cd, n) ==
           m \in {Migrate(A, 2), Migrate(A, 1), Migrate(A, 7), Migrate(B, 1), Migrate(C, 2),
                  UpdateAdmin(A, "u2"), UpdateAdmin(A, B), UpdateAdmin(A, A), UpdateAdmin(A, "u1"), UpdateAdmin(C, "u3"),
                  ClearAdmin(A), ClearAdmin(B), ClearAdmin(C)} }
+    (* migrating to the code without a migrate entry point fails; so do its sudo and (below a sub-message) its reply *)
+    \cup { ExecuteCall("u1", << Migrate(A, 3) >>), ExecuteCall("u1", << Migrate(D, 1) >>), SudoWasm(D, "sudo"), SudoWasm(D, "wasm_sudo"),
+           ExecuteCall("u1", << Exec(D, <<>>) >>) }
     \cup { ExecuteCall("u1", << Exec(c, <<>>) >>) : c \in {A, B} }
 
 (* ====================================================================== *)
